@@ -328,6 +328,7 @@ func c11Body(c *ev.Ctx) {
 	if !c.Expired() && c.NViolations() == 0 {
 		c11WriteFaults(c, quick)
 	}
+	runPairIsolation(c, c11Pairs())
 	if int(done) < len(cases) {
 		c.Cap(fmt.Sprintf("%d of %d chains", done, len(cases)))
 	} else {
